@@ -500,3 +500,91 @@ def run(ctx):  # noqa: F811
     _run_c28b(ctx)
     r28_3(ctx, ctx.model)
     r28_4(ctx, ctx.model)
+
+
+def r28_5(ctx, m):
+    """zero-mode bookkeeping of the classic maker: division in the normalised amplitudes <-> multiplication in finalize"""
+    from ..util import cfg_of, known_atoms
+    ctx.rule("R28.5", "classic CorrelatedFieldMaker, for every kind of zero-mode setting (0 / 1 / another number / an operator): "
+                      "get_normalized_amplitudes divides the non-zero modes by the zero-mode amplitude exactly when finalize "
+                      "multiplies the whole spectrum by it (enumeration of the four kinds through the guards of both methods) - "
+                      "otherwise the fluctuations come out scaled by 1/azm and the zero mode with unit amplitude", floor=4)
+    C = m.cls(CCF, "CorrelatedFieldMaker")
+    gn, fz = C.methods.get("get_normalized_amplitudes"), C.methods.get("finalize")
+    if gn is None or fz is None:
+        ctx.und("R28.5", f"{C.key}::zero-mode bookkeeping", "methods missing", C)
+        return
+    ctx.saw_func(gn)
+    ctx.saw_func(fz)
+    KINDS = {"0": 0, "1": 1, "another number": 2.5, "an operator": None}
+
+    def truth(t, kind):
+        """truth of a guard for a zero mode of the given kind (None = unknown)"""
+        v = KINDS[kind]
+        if isinstance(t, ast.UnaryOp) and isinstance(t.op, ast.Not):
+            r = truth(t.operand, kind)
+            return None if r is None else not r
+        if isinstance(t, ast.BoolOp):
+            vs = [truth(x, kind) for x in t.values]
+            if isinstance(t.op, ast.And):
+                return False if any(x is False for x in vs) else (None if any(x is None for x in vs) else True)
+            return True if any(x is True for x in vs) else (None if any(x is None for x in vs) else False)
+        if isinstance(t, ast.Call) and src(t.func).endswith("isscalar") and t.args and src(t.args[0]) in ("self.azm", "self._azm"):
+            return v is not None
+        if isinstance(t, ast.Compare) and len(t.ops) == 1 and src(t.left) in ("self.azm", "self._azm"):
+            c = t.comparators[0]
+            if isinstance(t.ops[0], (ast.Eq, ast.NotEq)) and isinstance(c, ast.Constant) and isinstance(c.value, (int, float)):
+                eq = (v is not None and v == c.value)
+                return eq if isinstance(t.ops[0], ast.Eq) else not eq
+            if isinstance(t.ops[0], (ast.In, ast.NotIn)) and isinstance(c, (ast.Tuple, ast.List, ast.Set)) and all(isinstance(e, ast.Constant) for e in c.elts):
+                inn = v is not None and any(v == e.value for e in c.elts)
+                return inn if isinstance(t.ops[0], ast.In) else not inn
+        return None
+
+    def reachable(cfg, nid, kind):
+        for t, pol in known_atoms(cfg, nid):
+            if "azm" not in src(t):
+                continue
+            r = truth(t, kind)
+            if r is not None and r != pol:
+                return False
+            if r is None:
+                return None
+        return True
+    cg, cf = cfg_of(gn), cfg_of(fz)
+    div_nodes = [n for n in cg.nodes if n.kind == "stmt" and n.ast is not None and any(
+        (isinstance(c, ast.Call) and call_name(c) == "reciprocal" and "azm" in src(c)) or
+        (isinstance(c, ast.BinOp) and isinstance(c.op, ast.Div) and "azm" in src(c.right)) for c in ast.walk(n.ast))]
+    mul_nodes = [n for n in cf.nodes if n.kind == "stmt" and n.ast is not None and any(
+        isinstance(c, ast.BinOp) and isinstance(c.op, ast.Mult) and ("azm" in src(c.left) or "azm" in src(c.right)) for c in ast.walk(n.ast))]
+    ret_g = [n for n in cg.nodes if n.kind == "stmt" and isinstance(n.ast, ast.Return)]
+    if not div_nodes or not mul_nodes or not ret_g:
+        ctx.und("R28.5", f"{C.key}::zero-mode bookkeeping", "division / multiplication sites not found", C)
+        return
+    for kind in KINDS:
+        # does a return of get_normalized_amplitudes that is reachable for this kind come after a division?
+        rs = [(n, reachable(cg, n.id, kind)) for n in ret_g]
+        live = [n for n, r in rs if r is True]
+        unknown = [n for n, r in rs if r is None]
+        key = f"{C.key}::zero mode {kind}: divided in the normalised amplitudes <=> multiplied in finalize"
+        if unknown or len(live) != 1:
+            ctx.und("R28.5", key, f"{len(live)} reachable returns, {len(unknown)} undetermined", C)
+            continue
+        dom = cg.dominators()
+        divides = any(reachable(cg, d.id, kind) is True and d.ast.lineno < live[0].ast.lineno for d in div_nodes)
+        ms = [(n, reachable(cf, n.id, kind)) for n in mul_nodes]
+        if any(r is None for _, r in ms):
+            ctx.und("R28.5", key, "finalize guard undetermined", C)
+            continue
+        multiplies = any(r is True for _, r in ms)
+        ctx.check("R28.5", key, divides == multiplies,
+                  f"get_normalized_amplitudes {'divides' if divides else 'does not divide'} by the zero-mode amplitude, finalize "
+                  f"{'multiplies' if multiplies else 'does not multiply'} by it", C, (mul_nodes[0].ast if divides and not multiplies else div_nodes[0].ast))
+
+
+_run_c28c = run
+
+
+def run(ctx):  # noqa: F811
+    _run_c28c(ctx)
+    r28_5(ctx, ctx.model)
